@@ -57,7 +57,7 @@ func init() {
 		Technique:   "static analysis: must-facts dataflow over go/cfg with typed patterns (guard-before-accept, predicate duals, argument binding)",
 		Rules:       []string{"E1"},
 		Run: func(c *Ctx) {
-			RunE1(c, "C14", obs)
+			RunE1(c, "C14", append(append([]Ob{}, obs...), sharedObs["C14"]...))
 			RunCallers(c, "E1.request-object-table", "op.ParseRequestObject", []string{"op.Authorize", "op.(*LegacyServer).VerifyAuthRequest"}, "request objects are honoured only where support is checked")
 		},
 	})
